@@ -411,7 +411,10 @@ func labelOf(x Expr) (string, bool) {
 	case EIdent:
 		return n.Name, true
 	case ESel:
-		// Type.Method#k style labels keep only the last component
+		// Type.Method#k
+		if id, ok := n.X.(EIdent); ok {
+			return id.Name + "." + n.Name, true
+		}
 		return n.Name, true
 	}
 	return "", false
@@ -733,10 +736,7 @@ func (e *Engine) knownLabel(lbl string) bool {
 	}
 	for c := range e.P.callOrdinals[e.Fn] {
 		id, _ := e.P.calleeID(c)
-		if i := strings.LastIndex(id, "."); i >= 0 {
-			id = id[i+1:]
-		}
-		if id == name {
+		if labelName(id) == name {
 			return true
 		}
 	}
